@@ -15,7 +15,7 @@ Undecided: that the tables equal the cardinalities of the input graph for every 
 import ast
 from ..core import walk_own, norm
 from ..report import Ob, Floor
-from ..rules import count, twin, memo, direction, globalstate, plumb, scanner, gens
+from ..rules import count, twin, memo, direction, globalstate, plumb, scanner, gens, merge
 from ..abseval import Evaluator, Sym
 from .. import exceptions
 from .c03 import mk_statement, K, P_LOW
@@ -83,6 +83,8 @@ def check(ctx, tier):
     obs += o_num
     obs += ctx.attempt(lambda c, cl: scanner.quoted_token_contract(c, cl)[0], ctx, "D-i", default=[])
     obs += ctx.attempt(lambda c, cl: gens.check(c, cl)[0], ctx, "D-j", default=[])
+    obs += ctx.attempt(scanner.literal_type_table, ctx, "D-k", default=[])
+    obs += ctx.attempt(lambda c, cl: merge.check(c, cl)[0], ctx, "D-l", default=[])
     exceptions.apply(obs)
     floors = [Floor("accumulator increments (+= 1)", counts.get("inc", 0), 9), Floor("absence initialisations", counts.get("init", 0), 20),
               Floor("class appends", counts.get("append", 0), 4), Floor("accumulation loops", n_loops, 8),
